@@ -202,11 +202,76 @@ def make(freq, loosen, reach):
     return contract
 
 
+# ===================================================================================== wiring (caller-side obligations)
+# USB3LinkLayer.elaborate() creates the LTSSMController and connects it to the physical layer, the training-set transceiver, the idle
+# handshake handler and the recovery requests.  Stated on the real link layer (open interfaces; see c46.open_link_layer).
+LTSSM_SOURCES = [    # LTSSM input <- (unit, attribute) as the statement's "PHY, LFPS, TS-detector and idle-handshake inputs"
+    ("phy_ready", ("phy", "ready")), ("link_partner_detected", ("phy", "link_partner_detected")),
+    ("no_link_partner_detected", ("phy", "no_link_partner_detected")), ("lfps_polling_detected", ("phy", "lfps_polling_detected")),
+    ("lfps_cycles_sent", ("phy", "lfps_cycles_sent")), ("tseq_detected", ("tsx", "tseq_detected")), ("ts1_detected", ("tsx", "ts1_detected")),
+    ("inverted_ts1_detected", ("tsx", "inverted_ts1_detected")), ("ts2_detected", ("tsx", "ts2_detected")),
+    ("hot_reset_requested", ("tsx", "hot_reset_requested")), ("loopback_requested", ("tsx", "loopback_requested")),
+    ("no_scrambling_requested", ("tsx", "no_scrambling_requested")), ("ts_burst_complete", ("tsx", "burst_complete")),
+    ("idle_handshake_complete", ("idle", "idle_handshake_complete")), ("disable_scrambling", ("d", "disable_scrambling")),
+    ("enable_compliance_scrambling", ("compliance", "enable_scrambling")),
+]
+LTSSM_SINKS = [      # (unit, attribute) <- LTSSM output
+    (("phy", "perform_rx_detection"), "perform_rx_detection"), (("phy", "tx_electrical_idle"), "tx_electrical_idle"),
+    (("phy", "engage_terminations"), "engage_terminations"), (("phy", "invert_rx_polarity"), "invert_rx_polarity"),
+    (("phy", "train_equalizer"), "train_equalizer"), (("phy", "enable_scrambling"), "enable_scrambling"),
+    (("tsx", "send_tseq_burst"), "send_tseq_burst"), (("tsx", "send_ts1_burst"), "send_ts1_burst"), (("tsx", "send_ts2_burst"), "send_ts2_burst"),
+    (("tsx", "request_hot_reset"), "request_hot_reset"), (("tsx", "request_no_scrambling"), "request_no_scrambling"),
+    (("idle", "enable"), "perform_idle_handshake"), (("compliance", "enable"), "emit_compliance_pattern"),
+    (("d", "trained"), "link_ready"), (("tm", "enable"), "link_ready"), (("hrx", "enable"), "link_ready"), (("ptx", "enable"), "link_ready"),
+]
+
+
+def link_layer_ltssm(freq, connections=True):
+    """connections=False: only the instance-parameter obligation (the connections do not depend on the clock parameter)."""
+    def contract(c):
+        from .c37_header_receive import LinkLayerUnits
+        from .c46_ss_in_endpoint import instance_is_contracted_unit, stream_same
+        U = LinkLayerUnits(c, freq)
+        of, S, ltssm, phy = U.of, U.S, U.ltssm, U.phy
+        unit = lambda key: getattr(U, key[0])
+        ref = LTSSMController(ss_clock_frequency=freq)      # the configuration proved below: this clock, loosened (the class default)
+        instance_is_contracted_unit(c, U.ts, "ltssm", ltssm, ref, PORTS_IN, PORTS_OUT, "ltssm_ref",
+                                    clause="Each training, recovery and inactive substate ... is left no later than that timeout: the LTSSM "
+                                           "instance of the link layer is LTSSMController(ss_clock_frequency = the link layer's clock, loosened)")
+        if not connections:
+            c.cosim_cycles = 2
+            return
+        # one obligation per source / destination unit (each conjunct is one connection)
+        for key in dict.fromkeys(src[0] for _, src in LTSSM_SOURCES):
+            c.lemma(f"ltssm_inputs_from_{key}_are_that_units_reports",
+                    z3.And(*[S(getattr(ltssm, name), getattr(unit(src), src[1])) for name, src in LTSSM_SOURCES if src[0] == key]),
+                    clause="All histories of PHY, LFPS, TS-detector and idle-handshake inputs: " +
+                           ", ".join(f"{name} = {src[0]}.{src[1]}" for name, src in LTSSM_SOURCES if src[0] == key))
+        c.lemma("ltssm_in_usb_reset_is_warm_reset_lfps_or_vbus_absent",
+                of(ltssm.in_usb_reset) == (of(phy.lfps_reset_detected) | ~of(phy.vbus_present)),
+                clause="a warm or power-on reset: in_usb_reset = reset LFPS detected or VBUS absent")
+        c.lemma("ltssm_trigger_link_recovery_is_any_recovery_request",
+                of(ltssm.trigger_link_recovery) == (of(U.tm.transition_to_recovery) | of(U.hrx.recovery_required) | of(U.ptx.recovery_required)))
+        for key in dict.fromkeys(dst[0] for dst, _ in LTSSM_SINKS):
+            c.lemma(f"{key}_sees_the_ltssm_outputs",
+                    z3.And(*[S(getattr(unit(dst), dst[1]), getattr(ltssm, name)) for dst, name in LTSSM_SINKS if dst[0] == key]),
+                    clause="the link reports ready / scrambling is enabled / training requests: " +
+                           ", ".join(f"{dst[0]}.{dst[1]} = {name}" for dst, name in LTSSM_SINKS if dst[0] == key))
+        c.lemma("phy_send_lfps_polling_is_ltssm_or_compliance_request",
+                of(phy.send_lfps_polling) == (of(ltssm.send_lfps_polling) | of(U.compliance.send_lfps_polling)))
+        c.lemma("link_in_reset_is_hot_reset_or_usb_reset", of(U.d.in_reset) == (of(ltssm.request_hot_reset) | of(ltssm.in_usb_reset)))
+        c.lemma("training_set_detectors_see_the_raw_receive_stream", stream_same(U.ts, U.tsx.sink, phy.raw_source),
+                clause="TS-detector inputs: the detectors look at the physical layer's raw (not descrambled) receive stream")
+    return contract
+
+
 def contracts(tier):
+    yield ("USB3LinkLayer", "wiring_ltssm_125MHz", link_layer_ltssm(125e6))
     yield ("LTSSMController", "1kHz_loosened", make(1e3, True, True))
     yield ("LTSSMController", "1kHz_strict", make(1e3, False, False))
     yield ("LTSSMController", "125MHz_loosened", make(125e6, True, False))
     if tier == "thorough":
+        yield ("USB3LinkLayer", "wiring_ltssm_instance_250MHz", link_layer_ltssm(250e6, connections=False))
         yield ("LTSSMController", "125MHz_strict", make(125e6, False, False))
         yield ("LTSSMController", "250MHz_loosened", make(250e6, True, False))
         yield ("LTSSMController", "10kHz_loosened", make(1e4, True, False))
